@@ -81,9 +81,12 @@ impl<S: BaseFloat> Quaternion<S> {
     ) -> Quaternion<S> {
         let mag_avg = (src.magnitude2() * dst.magnitude2()).sqrt();
         let dot = src.dot(dst);
-        if ulps_eq!(dot, &mag_avg) {
+        // `dot` and `mag_avg` scale with the lengths of the arguments, so the
+        // absolute tolerance has to scale with them as well
+        let eps = S::default_epsilon() * mag_avg;
+        if ulps_eq!(dot, &mag_avg, epsilon = eps) {
             Quaternion::<S>::one()
-        } else if ulps_eq!(dot, &-mag_avg) {
+        } else if ulps_eq!(dot, &-mag_avg, epsilon = eps) {
             let axis = fallback.unwrap_or_else(|| {
                 let mut v = Vector3::unit_x().cross(src);
                 if ulps_eq!(v, &Zero::zero()) {
